@@ -437,3 +437,4 @@ func TestC14_RegisterCancelStress(t *testing.T) {
 		return res
 	})
 }
+
